@@ -152,6 +152,49 @@ bool ops_module(Ctx &c, Toks const &t, std::string const &rest)
     c.out("natoms", itok((long long) p->get_atom_ids()->size()));
     return true;
   }
+  if (op == "m.save") {   // m.save <prefix> [bin]
+    cvm::clear_error();
+    p->colvars->binary_restart = (t.size() > 2 && t[2] == "bin");
+    int rc = p->colvars->write_restart_file(t[1] + ".colvars.state");
+    c.out("rc", itok((rc != COLVARS_OK || cvm::get_error() != COLVARS_OK) ? 1 : 0));
+    cvm::clear_error();
+    return true;
+  }
+  if (op == "m.load") {   // m.load <prefix>
+    cvm::clear_error();
+    p->set_input_prefix(t[1]);
+    int rc = p->colvars->setup_input();
+    c.out("rc", itok((rc != COLVARS_OK || cvm::get_error() != COLVARS_OK) ? 1 : 0));
+    c.out("it", itok(cvm::step_absolute()));
+    cvm::clear_error();
+    p->first_step = true;   // the engine starts a new run from the loaded state
+    return true;
+  }
+  if (op == "m.loadhex") {   // m.loadhex <scratch prefix> <hex bytes of a state file>
+    std::string const path = t[1] + ".colvars.state";
+    {
+      std::ofstream o(path.c_str(), std::ios::binary);
+      std::string const &h = t[2];
+      if (h != "-") for (size_t i = 0; i + 1 < h.size(); i += 2) o.put((char) std::strtol(h.substr(i, 2).c_str(), nullptr, 16));
+    }
+    cvm::clear_error();
+    p->set_input_prefix(t[1]);
+    int rc = p->colvars->setup_input();
+    c.out("rc", itok((rc != COLVARS_OK || cvm::get_error() != COLVARS_OK) ? 1 : 0));
+    cvm::clear_error();
+    std::remove(path.c_str());
+    p->first_step = true;
+    return true;
+  }
+  if (op == "m.savestr") {
+    std::string st;
+    cvm::clear_error();
+    int rc = p->colvars->write_restart_string(st);
+    c.out("rc", itok(rc != COLVARS_OK ? 1 : 0));
+    c.out("state", stok(escape_out(st)));
+    cvm::clear_error();
+    return true;
+  }
   if (op == "m.script") {
     std::vector<std::string> args;
     for (size_t i = 1; i < t.size(); i++) args.push_back(unescape(t[i]));
@@ -186,7 +229,7 @@ int main(int argc, char **argv)
       size_t b = rest.find_first_not_of(" ");
       rest = (b == std::string::npos) ? "" : rest.substr(b);
     }
-    bool ok = ops_c18(c, t) || ops_c15(c, t) || ops_c11(c, t) || ops_module(c, t, rest);
+    bool ok = ops_c18(c, t) || ops_c15(c, t) || ops_c11(c, t) || ops_bias(c, t) || ops_module(c, t, rest);
     (void) ok;
     std::cout.flush();
   }
